@@ -30,6 +30,7 @@ HINT_SETS = [
 HEADER = '''
 from typing import *
 from dataclasses import dataclass
+import enum as _enum
 from beartype import beartype, BeartypeConf
 from bearverif.userclasses import UA, UB, UC, UGenList
 from beartype.vale import Is, IsEqual
@@ -146,6 +147,25 @@ class Sub(K):
         return x
 
 {classdec}
+class NT(NamedTuple):
+    a: {h1}
+    {m}
+    def ntm(self, x: {h1}) -> {h2}:
+        return x
+
+{classdec}
+class En(_enum.Enum):
+    A = 1
+    {m}
+    def enm(self, x: {h2}) -> {h1}:
+        return x
+    {m}
+    @classmethod
+    {f}
+    def encm(cls, x: {h1}) -> {h1}:
+        return x
+
+{classdec}
 @dataclass
 class DC:
     a: {h1}
@@ -156,9 +176,9 @@ class DC:
 '''
 
 # the __init__ that @dataclass generates is a method of the class too: the by-hand routes decorate it after the fact
-POST = 'DC.__init__ = D(DC.__init__)'
+POST = 'DC.__init__ = D(DC.__init__)\nNT.__new__ = D(NT.__new__)'
 MEMBERS = ['plain', 'cm', 'sm', 'prop', 'prop', 'inner', 'meth']
-HAS_SELF = {'pre': True, '__init__': True, '__call__': True, 'plain': True, 'cm': True, 'sm': False, 'prop': True, 'loose': True, 'gone': True, 'inner': True, 'nloose': True, 'meth': True}
+HAS_SELF = {'ntm': True, 'enm': True, 'encm': True, '__new__': True, 'pre': True, '__init__': True, '__call__': True, 'plain': True, 'cm': True, 'sm': False, 'prop': True, 'loose': True, 'gone': True, 'inner': True, 'nloose': True, 'meth': True}
 
 
 def source(h1, h2, confkw, route):
@@ -219,7 +239,7 @@ def run_case(prop, name, spec, confkw, tier, src):
                                      'detail': '; '.join(problems)[:600], 'hint': name, 'confkw': confkw})
             else:
                 out.discharged += 1
-            for mname in ('pre', '__init__', '__call__', 'plain', 'cm', 'sm', 'prop', 'loose', 'gone', 'inner', 'nloose', 'meth'):
+            for mname in ('ntm', 'enm', 'encm', '__new__', 'pre', '__init__', '__call__', 'plain', 'cm', 'sm', 'prop', 'loose', 'gone', 'inner', 'nloose', 'meth'):
                 ra, rb = A.get(mname, []), B.get(mname, [])
                 if len(ra) != len(rb):
                     out.findings.append({'kind': 'c13_side', 'program': mname,
@@ -334,7 +354,7 @@ def replay_c13(p):
     if p.get('program') == 'side':
         probs = concrete_side_conditions(nsA, nsB, by_name(rA), by_name(rB), src.get('route', 'members'))
         A, B = by_name(rA), by_name(rB)
-        for mname in ('pre', '__init__', '__call__', 'plain', 'cm', 'sm', 'prop', 'loose', 'gone', 'inner', 'nloose', 'meth'):
+        for mname in ('ntm', 'enm', 'encm', '__new__', 'pre', '__init__', '__call__', 'plain', 'cm', 'sm', 'prop', 'loose', 'gone', 'inner', 'nloose', 'meth'):
             if len(A.get(mname, [])) != len(B.get(mname, [])):
                 probs.append(f'{len(A.get(mname, []))} checking wrapper(s) generated for {mname} when decorating the class, '
                              f'{len(B.get(mname, []))} when decorating the {src.get("route", "members")}')
@@ -353,6 +373,14 @@ def replay_c13(p):
                     (inst if idx == 0 else ns['Sub']()).plain(obj)
                 elif m == 'pre':
                     inst.pre(obj)
+                elif m == 'ntm':
+                    tuple.__new__(ns['NT'], (None,)).ntm(obj)
+                elif m == 'enm':
+                    ns['En'].A.enm(obj)
+                elif m == 'encm':
+                    ns['En'].encm(obj)
+                elif m == '__new__':
+                    ns['NT'](obj)
                 elif m == '__init__':
                     K(obj) if idx == 0 else ns['DC'](obj)
                 elif m == '__call__':
